@@ -721,9 +721,12 @@ def run_mode(kind, mode, x, ref, spec, tmp, aliases, rng, case):
         res, err = guarded(lambda: do_mode(kind, mode, x, tmp))
         if err is not None:
             tag = ""
-            if kind == "trajectory" and spec.get("script") is None:
+            np_map = kind == "trajectory" and spec.get("cgmap_np") and spec.get("cgmap") is not None
+            if np_map and "JSON serializable" in err:
+                tag = ":cgmap-ndarray"
+            elif kind == "trajectory" and spec.get("script") is None:
                 tag = ":scriptless"
-            elif kind == "trajectory" and spec.get("cgmap_np") and spec.get("cgmap") is not None:
+            elif np_map:
                 tag = ":cgmap-ndarray"
             return fail("%s:%s:raises%s" % (mode.split("-")[0], kind, tag), "%s round trip of a %s raises %s" % (mode, kind, err), impl=err,
                         expected="an equal object")
